@@ -25,7 +25,7 @@ func init() {
 	register(&Property{
 		ID:      "C03",
 		NeedSSA: true,
-		Decided: "Narrow structural necessary conditions only: (nullwidth) every width-specific null scanner nullIndex<T> of the typed ingestion path scans elements of the width of T (it calls the kernel named after 8·sizeof(T) or the generic scanner instantiated with a type of that width), and the floating-point scanners never instantiate the generic scanner with a floating-point type (it would compare values, and -0.0 == 0, where reflect.Value.IsZero and the assembly kernels test bits), in every build configuration; (nullkinds) the reflection path decides `null` for pointer-like kinds (pointer, map, slice, interface) by IsNil, like the typed path's pointer test, never by length or zero-ness; (siblings) the entry points that shred through a shared implementation hand it the same set of level fields (composite literals passed to one callee set the same keys); (mapscratch) the map re-assembly clears its scratch element after each entry; (dispatch) the node-shape dispatchers of the typed, reflection and row paths test the same predicates (optional, repeated, list, map) in the same order. (appendalias) inside a loop, a slice built by appending to a base slice that is the same on every iteration (a parameter not always passed clipped, a field, a value computed before the loop) is not retained unless the base's capacity was clipped: retained slices would share the base's spare capacity. (accum) a recursive walk (schema tree, embedded structs) that adds to an integer parameter — column index, level, byte offset — passes, at every recursive call, an argument computed from that parameter (through arithmetic, conversions, calls that received it, maps filled with it, and the reaching definitions of local struct fields), so the running number is not restarted at a nested level. (stride) a typed write function that hands a column buffer's writeValues a scratch array of fixed-width integers reads the physical kind of the column's type in the function that builds it. (siblings, cont.) sibling call sites fill each literal field from the same source field. (loopfresh) a reflect scratch made by reflect.New outside a loop is not both refilled (Set) and handed, inside the loop, to a function that receives the [][]Value columns of a row being deconstructed. (headercopy) in the typed dispatch writeRowsFuncOf, within the cases of reflect.String and reflect.Slice, every call of the direct-memory writer is unreachable from the FIXED_LEN_BYTE_ARRAY outcome of a test on the column's kind made in that case: a string or slice header is never copied as if it were the fixed-size value.",
+		Decided: "Narrow structural necessary conditions only: (nullwidth) every width-specific null scanner nullIndex<T> of the typed ingestion path scans elements of the width of T (it calls the kernel named after 8·sizeof(T) or the generic scanner instantiated with a type of that width), and the floating-point scanners never instantiate the generic scanner with a floating-point type (it would compare values, and -0.0 == 0, where reflect.Value.IsZero and the assembly kernels test bits), in every build configuration; (nullkinds) the reflection path decides `null` for pointer-like kinds (pointer, map, slice, interface) by IsNil, like the typed path's pointer test, never by length or zero-ness; (siblings) the entry points that shred through a shared implementation hand it the same set of level fields (composite literals passed to one callee set the same keys); (mapscratch) the map re-assembly clears its scratch element after each entry; (dispatch) the node-shape dispatchers of the typed, reflection and row paths test the same predicates (optional, repeated, list, map) in the same order. (appendalias) inside a loop, a slice built by appending to a base slice that is the same on every iteration (a parameter not always passed clipped, a field, a value computed before the loop) is not retained unless the base's capacity was clipped: retained slices would share the base's spare capacity. (accum) a recursive walk (schema tree, embedded structs) that adds to an integer parameter — column index, level, byte offset — passes, at every recursive call, an argument computed from that parameter (through arithmetic, conversions, calls that received it, maps filled with it, and the reaching definitions of local struct fields), so the running number is not restarted at a nested level. (stride) a typed write function that hands a column buffer's writeValues a scratch array of fixed-width integers reads the physical kind of the column's type in the function that builds it. (siblings, cont.) sibling call sites fill each literal field from the same source field. (loopfresh) a reflect scratch made by reflect.New outside a loop is not both refilled (Set) and handed, inside the loop, to a function that receives the [][]Value columns of a row being deconstructed. (headercopy) in the typed dispatch writeRowsFuncOf, within the cases of reflect.String and reflect.Slice, every call of the direct-memory writer is unreachable from the FIXED_LEN_BYTE_ARRAY outcome of a test on the column's kind made in that case: a string or slice header is never copied as if it were the fixed-size value. (clobber) in a method that writes a buffer at positions computed from an integer cursor field of its receiver, between a write and a later non-merging write (a bulk write through a re-slice, a plain store) at the same expression of the cursor, the cursor is stored on every path: the later write does not replace what the earlier one stored.",
 		NotDecided: "the level values themselves, null-bitmap scanning, batch boundaries, the amounts added to offsets and indexes, ordering of map keys — value-dependent.",
 		Assumptions: []string{"see DESIGN.md §4 C03"},
 		Run:         runC03,
@@ -196,6 +196,7 @@ func runC03(c *Ctx) {
 	c03Stride(c)
 	runLoopFreshRule(c, "C03.loopfresh", 3)
 	c03HeaderCopy(c)
+	runClobberRule(c, "C03.clobber", 1)
 	p := c.P
 	rule := "C03.nullwidth"
 	sizes := types.SizesFor("gc", c.P.Config.GOARCH)
